@@ -390,6 +390,8 @@ def builder_ops():
     ops.append({"op": "set_ctl", "m": 1, "which": "first", "v": "max"})
     ops.append({"op": "set_ctl", "m": 2, "which": "last", "v": "min"})
     ops.append({"op": "save"})
+    # ANOTHER project asks for this project's first module and last pattern and is refused: nothing here changes
+    ops.append({"op": "refused_elsewhere"})
     return ops
 
 
@@ -412,8 +414,24 @@ class Builder:
         if k == "save":
             p.read()            # a save between edits must not make a later save miss the edits
             return "ok"
+        if k == "refused_elsewhere":
+            if L.get("refused") or len(p.modules) < 2 or p.modules[1] is None:
+                return "skip"
+            q = rv.Project()
+            last = p.modules[-1]
+            for req in (lambda: q.attach_module(p.modules[1]),
+                        lambda: q.__iadd__([last]) if last is not None and last is not p.modules[1] and last is not p.output else None,
+                        lambda: q.attach_pattern(p.patterns[-1]) if p.patterns and p.patterns[-1] is not None else None):
+                try:
+                    req()
+                except Exception:
+                    pass
+            L["refused"] = 1
+            return "ok"
         if k == "new_module":
-            p.new_module(getattr(rv.m, op["T"]))
+            nm = p.new_module(getattr(rv.m, op["T"]))
+            # placement that differs from what a reader would assume for a module it knows nothing about
+            nm.x, nm.y, nm.layer = 96 + 8 * nm.index, 700 - 16 * nm.index, 1 + nm.index % 3
         elif k == "attach_none":
             p.attach_module(None)
         elif k in ("connect", "disconnect"):
@@ -459,6 +477,7 @@ class Builder:
                 # this driver: type, links, controllers, and the project-level fields/patterns
                 for k in ("payload", "options", "cmid"):
                     m.pop(k, None)
+        s["_refused"] = L.get("refused", 0)
         s["_saved_last"] = (L.get("saved", 0), L.get("saved_ever", 0))   # a save may leave hidden state behind: do not merge with unsaved states
         return s
 
